@@ -263,7 +263,7 @@ func exec(op string) (res string) {
 		return execSkip(w)
 	case "reuse", "reusex":
 		return execReuseOp(w)
-	case "pages", "pagesx":
+	case "pages", "pagesn", "pagesx":
 		return execPages(w)
 	}
 	return "bad-op"
